@@ -17,6 +17,9 @@ import (
 )
 
 func c07Trace(op string, inst int, seed uint64) (string, error) {
+	if err := c07CheckInterfaces(); err != nil {
+		return "", err
+	}
 	dir, err := os.MkdirTemp("", "vh-c07t-")
 	if err != nil {
 		return "", err
